@@ -11,20 +11,26 @@ import (
 
 // UnaryCrashInterceptor 用于一元请求的异常捕获拦截器。
 func UnaryCrashInterceptor(ctx context.Context, req interface{}, _ *grpc.UnaryServerInfo, handler grpc.UnaryHandler) (resp interface{}, err error) {
-	defer handleCrash(func(r interface{}) {
+	finished := false
+	defer handleCrash(&finished, func(r interface{}) {
 		err = toPanicError(r)
 	})
 
-	return handler(ctx, req)
+	resp, err = handler(ctx, req)
+	finished = true
+	return
 }
 
 // StreamCrashInterceptor 捕获 stream 请求和 recover() 中的 panics。
 func StreamCrashInterceptor(svr interface{}, stream grpc.ServerStream, _ *grpc.StreamServerInfo, handler grpc.StreamHandler) (err error) {
-	defer handleCrash(func(r interface{}) {
+	finished := false
+	defer handleCrash(&finished, func(r interface{}) {
 		err = toPanicError(r)
 	})
 
-	return handler(svr, stream)
+	err = handler(svr, stream)
+	finished = true
+	return
 }
 
 func toPanicError(r interface{}) error {
@@ -32,8 +38,11 @@ func toPanicError(r interface{}) error {
 	return status.Errorf(codes.Internal, "panic: %v", r)
 }
 
-func handleCrash(handler func(interface{})) {
-	if r := recover(); r != nil {
-		handler(r)
+// handleCrash 必须直接作为 defer 的函数调用。
+// finished 为 false 说明被保护的调用没有正常返回，即发生了 panic：
+// 不能用 recover() != nil 判断，panic(nil) 时 recover() 返回 nil。
+func handleCrash(finished *bool, handler func(interface{})) {
+	if !*finished {
+		handler(recover())
 	}
 }
